@@ -1,4 +1,5 @@
 import Ptk.Proto
+import Ptk.Gen.C20
 import Ptk.Model.C20
 import Ptk.Model.C20Chain
 import Ptk.Model.C20Lock
@@ -8,9 +9,16 @@ open Ptk Ptk.Py Ptk.Proto Ptk.C20
 
   proxy model (stateful):
     init <raw>            reset
-    w <t> <str> | f <t> | close | fl | run | start | stop | newloop | closeloop | settle
+    w <t> <str> | wbad <t> | f <t> | close | fl | start | newloop | closeloop | inval | exit | settle
+    cb                    the oldest accepted callback runs (`run_in_terminal` makes its task)
+    task                  first step of the oldest task
+    wake                  `run_async` wakes up (model op `stop`);  finish  `run_async` returns
+    run                   = tasks that wait, `cb`, the task it made   (the loop runs freely)
+    stop                  = `wake`, `finish`
+    runexit               = tasks that wait, `exit`, `cb`, its task, `wake`, `finish`  (exit() queued behind the callback's task)
+    exitrun               = tasks that wait, `exit`, `cb`, `wake`, the task, `finish`  (exit() queued before the callback ran)
     end                   summary line
-  reply to every op: `<events appended by the op> | buf=.. q=.. fl=.. pend=.. lost=.. app=.. loop=..`
+  reply to every op: `<events appended by the op> | buf=.. q=.. fl=.. pend=.. tasks=.. lost=.. app=.. exit=.. wind=.. loop=..`
 
   chain model (stateful, separate state):
     cinit | center <k> | cstep <k> | cstop | cstart
@@ -35,16 +43,19 @@ def encFl : Fl → String
   | .exited => "exited"
 
 def encState (s : St) : String :=
-  s!"buf={encStr (cat s.buffer)} q={encList encItem s.queue} fl={encFl s.fl} pend={encList encStr s.pending} lost={encList encStr s.lost} app={encBool s.appOn} exit={encBool s.exiting} loop={s.loopGen}/{encBool s.loopOpen}"
+  s!"buf={encStr (cat s.buffer)} q={encList encItem s.queue} fl={encFl s.fl} pend={encList encStr s.pending} tasks={encList encStr (taskTexts s.tasks)} lost={encList encStr s.lost} app={encBool s.appOn} exit={encBool s.exiting} wind={encBool s.winding} loop={s.loopGen}/{encBool s.loopOpen}"
 
 def parseOp : List String → Option Op
   | ["w", t, d] => do pure (.write (← decNat t) (← decStr d))
   | ["f", t] => do pure (.flush (← decNat t))
   | ["close"] => some .close
   | ["fl"] => some .fl
-  | ["run"] => some .run
+  | ["wbad", t] => do pure (.writeBad (← decNat t))
+  | ["cb"] => some .run
+  | ["task"] => some .task
+  | ["wake"] => some .stop
+  | ["finish"] => some .finish
   | ["start"] => some .start
-  | ["stop"] => some .stop
   | ["newloop"] => some .newLoop
   | ["closeloop"] => some .closeLoop
   | ["inval"] => some .inval
@@ -100,6 +111,8 @@ def stepLine (s : C20Lock.St) : List String → Option (C20Lock.St × String)
   | _ => none
 end LockDrv
 
+def drainAll (s : St) : St := drainTasks (s.tasks.length + 1) s
+
 def reply (old new : St) : String :=
   let evs := new.log.drop old.log.length
   " ".intercalate (evs.map encEv) ++ " | " ++ encState new
@@ -110,10 +123,22 @@ def stepLine (d : DSt) (toks : List String) : DSt × String :=
     match decBool r with
     | some r => let s := init r; ({ d with s := s }, " | " ++ encState s)
     | none => (d, "bad-op")
+  | ["run"] =>
+    -- the loop runs freely: the tasks that wait, the oldest accepted callback, the task it made
+    let s' := drainAll (step (drainAll d.s) .run)
+    ({ d with s := s' }, reply d.s s')
+  | ["stop"] =>
+    let s' := step (step d.s .stop) .finish
+    ({ d with s := s' }, reply d.s s')
   | ["runexit"] =>
     -- one loop turn: the oldest accepted callback, `Application.exit()` queued right behind it, then the
-    -- task the callback created (inside the exit-requested phase), then `run_async` resumes
-    let s' := step (step (step d.s .exit) .run) .stop
+    -- task the callback created (inside the exit-requested phase), then `run_async` resumes and returns
+    let s' := step (step (drainAll (step (step (drainAll d.s) .exit) .run)) .stop) .finish
+    ({ d with s := s' }, reply d.s s')
+  | ["exitrun"] =>
+    -- one loop turn: `Application.exit()` first (the wake-up of `run_async` is queued), then the oldest
+    -- accepted callback; the wake-up runs before the first step of the task the callback made
+    let s' := step (drainAll (step (step (step (drainAll d.s) .exit) .run) .stop)) .finish
     ({ d with s := s' }, reply d.s s')
   | ["settle"] =>
     let s' := settle 100000 d.s
@@ -121,7 +146,7 @@ def stepLine (d : DSt) (toks : List String) : DSt × String :=
   | ["end"] =>
     let s := d.s
     let started := s.log.any fun e => e == .draw
-    (d, s!"out={encStr (outText s.log)} term={if started then "-" else encStr (termText s.log)} quiescent={encBool (quiescent s)}")
+    (d, s!"out={encStr (outText s.log)} term={if started then "-" else encStr (termText Ptk.Gen.C20.autowrap Ptk.Gen.C20.escRepl s.log)} quiescent={encBool (quiescent s)}")
   | "soak" :: _ :: strs =>
     -- per-thread projection of the output of a free running case: the thread's writes, in order
     match strs.mapM decStr with
